@@ -65,6 +65,12 @@ InplaceClauses(ev) ==
 
 ResultSlot(ev) == IF ev.args.inplace THEN ev.recv ELSE ev.res
 
+\* operations documented to return a new table: the receiver stays as it was and the result is a
+\* different object (so later in-place changes to the result cannot show through in the original)
+NewTableClauses(ev) ==
+  [C07_inputs_unchanged |-> FrameRule(ev, {ev.res}),
+   C07_result_is_a_new_table |-> Ok(ev) => ~ev.obs.ret_is_recv]
+
 \* ---------------------------------------------------------------- C08
 \* filter by an ID collection
 Clauses_filter_ids(ev) ==
@@ -191,12 +197,16 @@ Clauses_transpose(ev) ==
                                 /\ MdEq(post, Transpose(pre), "sample"),
      C07_inputs_unchanged |-> FrameRule(ev, {ev.res})]
 
+DegenerateMd(t) == \E ax \in Axes : Md(t, ax).has /\ \A k \in 1..Len(Md(t, ax).rows) : Md(t, ax).rows[k] = <<>>
 Clauses_copy(ev) ==
   LET pre == ev.pre[ev.recv] IN
   IF Failed(ev) THEN [C06_copy_succeeds |-> FALSE]
   ELSE LET post == ev.post[ev.res] IN
     [C06_copy_equal_content |-> SameTable(post, pre),
-     C16_copy_equals_original |-> ev.obs.eq_orig /\ ev.obs.eq_orig_rev /\ ~ev.obs.ne_orig,
+     \* domain: non-empty tables whose metadata, when present, has at least one category
+     \* (the constructor itself turns "every row empty" into "no metadata")
+     C16_copy_equals_original |-> IsEmptyTable(pre) \/ DegenerateMd(pre)
+                                  \/ (ev.obs.eq_orig /\ ev.obs.eq_orig_rev /\ ~ev.obs.ne_orig),
      C07_inputs_unchanged |-> FrameRule(ev, {ev.res}),
      C07_copy_is_new_object |-> ~ev.obs.ret_is_recv]
 
@@ -209,7 +219,8 @@ Clauses_update_ids(ev) ==
       map == MapOf(ev.args.map)
       okreq == UpdateIdsOk(pre, map, ax, ev.args.strict)
       want == UpdateIds(pre, map, ax)
-  IN IF ~okreq
+  IN IF Ids(pre, ax) = <<>> THEN [C06_out_of_domain_empty_axis |-> TRUE]
+     ELSE IF ~okreq
      THEN [C06_bad_rename_refused |-> Failed(ev),
            C06_bad_rename_leaves_tables_unchanged |-> HeapUnchanged(ev)]
      ELSE IF Failed(ev) THEN [C06_update_ids_succeeds |-> FALSE]
